@@ -122,7 +122,7 @@ def run_C20(tier, seed, t0):
 
 def _layout_specs(prop, tier, seed):
     from . import templates
-    tl = list(templates.CURATED) + templates.adjacency() + templates.between()
+    tl = list(templates.CURATED) + templates.adjacency() + templates.between() + templates.SYMBOLIC_ALIGN
     gap_bits, k_bits, max_paths = 23, 34, 600
     if tier == 'thorough':
         tl += templates.enumerated(2, seed, 60)
@@ -135,7 +135,7 @@ def _layout_specs(prop, tier, seed):
     return specs, dict(templates=len(tl), template_lines='<= %d' % max(len(l) for _, l in tl),
                        gaps='each gap 0..2^%d bytes (symbolic file size)' % gap_bits,
                        li_values='signed %d-bit' % k_bits, modes='compression off and on',
-                       alignments='1,2,3,4,5,8,16,64,4096')
+                       alignments='1,2,3,4,5,8,16,64,4096; two templates with symbolic alignments 1..16 and gaps < 256')
 
 
 LAYOUT_STUBS = STUBS_ASM + ['virtual file system: include_bytes of a file whose size is a symbolic integer (the gap); content opaque']
